@@ -437,6 +437,11 @@ mod worker {
                 async move {
                     let stream_h3 = match stream_quic.upgrade().await {
                         Ok(stream_h3) => stream_h3,
+                        Err(ProtoReadError::H3(ErrorCode::StreamCreation)) => {
+                            // Unknown stream type: reading has been aborted for that stream only,
+                            // it MUST NOT be considered a connection error of any kind.
+                            return;
+                        }
                         Err(ProtoReadError::H3(error_code)) => {
                             h3_slot.send(Err(DriverError::Proto(error_code)));
                             return;
